@@ -52,6 +52,49 @@ def build(shape, faces, spec, params=None, widths=None, extra_fn=None, time=1e-1
     return sc
 
 
+def build_cfg(shape, faces, spec, params=None, widths=None, extra_fn=None, time=1e-15, gradient="reversible",
+              courant_factor=0.99):
+    """like `build`, but the PML objects come from BoundaryConfig(**per-face fields) -> boundary_objects_from_config,
+    i.e. the route users take; params[face] holds the grading fields the user WROTE (absent = None in the config)"""
+    j = Y.J()
+    fdtdx, jnp, jax = j["fdtdx"], j["jnp"], j["jax"]
+    gc = None
+    if gradient == "reversible":
+        gc = fdtdx.GradientConfig(method="reversible", recorder=fdtdx.Recorder(modules=[]))
+    cfg = fdtdx.SimulationConfig(time=time, grid=make_grid(widths), dtype=jnp.float64, backend="cpu", gradient_config=gc,
+                                 courant_factor=courant_factor)
+    vol = fdtdx.SimulationVolume(partial_grid_shape=tuple(shape))
+    kinds = {k: ("pml" if k in spec else ("none" if faces.get(k, "none") == "pml" else faces.get(k, "none"))) for k in Y.FACES}
+    kw = {}
+    for k in Y.FACES:
+        kk = k.replace("_", "")
+        if kinds[k] != "none":
+            kw[f"boundary_type_{kk}"] = kinds[k]
+        kw[f"thickness_grid_{kk}"] = spec.get(k, 1)
+        for name, val in (params or {}).get(k, {}).items():
+            kw[f"{name}_{kk}"] = val
+    bd, bcons = fdtdx.boundary_objects_from_config(fdtdx.BoundaryConfig(**kw), vol)
+    objs, cons = [vol], []
+    for (k, b), cc in zip(bd.items(), bcons):
+        if kinds[k] != "none":
+            objs.append(b)
+            cons.append(cc)
+    if extra_fn is not None:
+        o2, c2 = extra_fn(vol)
+        objs += list(o2)
+        cons += list(c2)
+    objects, arrays, prm, config, info = fdtdx.place_objects(object_list=objs, config=cfg, constraints=cons,
+                                                             key=jax.random.PRNGKey(0))
+    sc = Y.Scene()
+    sc.objects, sc.arrays, sc.params, sc.config = objects, arrays, prm, config
+    sc.shape, sc.widths = tuple(shape), widths
+    sc.faces = {k: ("none" if kinds[k] == "pml" else kinds[k]) for k in Y.FACES}
+    sc.bloch_vector = (0.0, 0.0, 0.0)
+    sc.volume = vol
+    sc.pml_spec, sc.pml_params = dict(spec), params
+    return sc
+
+
 def make_grid(widths, spacing=50e-9):
     j = Y.J()
     fdtdx, jnp = j["fdtdx"], j["jnp"]
@@ -69,10 +112,10 @@ def step_duration(widths=None, courant_factor=0.99, spacing=50e-9):
     return float(cfg.time_step_duration)
 
 
-def build_steps(shape, faces, spec, steps, **kw):
+def build_steps(shape, faces, spec, steps, via_config=False, **kw):
     """scene whose run has exactly `steps` time steps"""
     dt = step_duration(kw.get("widths"), kw.get("courant_factor", 0.99))
-    sc = build(shape, faces, spec, time=(steps + 0.01) * dt, **kw)
+    sc = (build_cfg if via_config else build)(shape, faces, spec, time=(steps + 0.01) * dt, **kw)
     assert int(sc.config.time_steps_total) == steps, (int(sc.config.time_steps_total), steps)
     return sc
 
